@@ -519,6 +519,7 @@ func minimize(sig string, cs []byte) []byte {
 		cc.H = h
 		return runCase(cc).HasSig(sig)
 	}
+	fails = ev.Bounded(fails)
 	if !fails(c.H) {
 		return nil
 	}
